@@ -206,6 +206,26 @@ def check_proofs(pid):
     return info
 
 
+def coqchk(pid):
+    """Thorough tier only: re-check the compiled property file and everything it depends on with the
+    independent checker and collect the axioms it reports."""
+    rc, out = sh("ulimit -s 1000000 2>/dev/null; exec coqchk -o -silent -Q %s Verif Verif.Props.%s" % (
+        os.path.join(COQ, "theories"), pid), cwd=COQ, timeout=3000)
+    m = re.search(r"\* Axioms:(.*?)\n\s*\n\* Constants", out, re.S)
+    axioms = []
+    if m:
+        txt = m.group(1).strip()
+        if txt != "<none>":
+            axioms = [a.strip() for a in txt.split("\n") if a.strip()]
+    other = {}
+    for key in ("type-in-type", "unsafe (co)fixpoints", "positivity is assumed"):
+        mm = re.search(re.escape(key) + r":(.*?)\n\s*\n", out + "\n\n", re.S)
+        if mm and mm.group(1).strip() not in ("<none>", ""):
+            other[key] = mm.group(1).strip()[:300]
+    ok = rc == 0 and m is not None and not [a for a in axioms if a not in ALLOWED_AXIOMS] and not other
+    return {"ok": ok, "rc": rc, "axioms": axioms, "unsafe": other, "tail": out[-1500:]}
+
+
 # ----------------------------------------------------------------------------------------------
 # correspondence
 
@@ -416,6 +436,12 @@ def main():
             if rc != 0:
                 raise Infra("Run/Driver.vo does not build (model files must compile):\n" + out[-4000:])
             proofs = check_proofs(pid)
+            chk = None
+            if tier == "thorough" and proofs["ok"] and proofs["names"] and not replay:
+                chk = coqchk(pid)
+                if not chk["ok"]:
+                    proofs["ok"] = False
+                    proofs["log"] += "\ncoqchk did not confirm the property file:\n" + chk["tail"]
         if not proofs["ok"]:
             broken.append(("proof", "coq/theories/Props/%s.v no longer checks (theorems: %s)" % (pid, ", ".join(proofs["names"])),
                            proofs["log"][-1500:]))
@@ -490,6 +516,7 @@ def main():
                 "trusted_base": spec["trusted_base"],
                 "theorems": proofs["names"],
                 "axioms_reported": proofs["axioms"],
+                "coqchk": ({"ran": True, "ok": chk["ok"], "axioms": chk["axioms"]} if chk else {"ran": False, "note": "coqchk -o runs in the thorough tier"}),
                 "evaluations": len(cases) + searched,
                 "distinct_nontrivial": distinct,
                 "rule": spec["rule"],
@@ -504,7 +531,8 @@ def main():
             "wall_s": round(time.time() - t0, 2),
             "violations": violations,
         }
-        write_evidence(pid, ev)
+        if not replay:
+            write_evidence(pid, ev)   # a replay re-runs one input; it does not describe a check run
 
         # ---- verdict
         seen_classes = {}
